@@ -298,13 +298,15 @@ def decorate_prefixes(rng, model):
             nxt = PREFIXES[PREFIXES.index(top_prefix) + 1]
             tc["prefix"] = nxt[len(top_prefix):]       # relative: '.p1'
             p = nxt
-        if rng.random() < 0.4 and not tc.get("extends"):
+        # (a type that extends another may carry its own prefix and a
+        # relative datatype / key type as well: resolved against its own
+        # prefix, like any other type's)
+        if rng.random() < 0.4:
             f = rng.choice(SECT_FUNCS)
             tc["raw_datatype"] = rel(f, p, rng)
             te["raw_datatype"] = f
             tc["datatype"] = te["datatype"] = None
-        if rng.random() < 0.3 and not tc.get("extends") and \
-                not tc.get("keytype"):
+        if rng.random() < 0.3 and not tc.get("keytype"):
             f = "zcverif_dt.p1.p2.key_lower"
             tc["keytype"] = rel(f, p, rng)
             te["keytype"] = f
@@ -417,8 +419,12 @@ def run_schema_extends(ctx, i, dirpath):
           "handler": None, "types": own["types"],
           "children": own["children"],
           # ZConfig reads the listed bases last-first
-          "extends_attr": " ".join(reversed(names))
-          if mode != "chain" else names[-1]}
+          # (white space of any kind separates the references and may
+          # surround the list)
+          "extends_attr": rng.choice(["", "", " ", "\n    ", "\t"]) +
+          rng.choice([" ", " ", "  ", "\n      ", "\t"]).join(
+              reversed(names) if mode != "chain" else names[-1:]) +
+          rng.choice(["", "", " ", "\n  "])}
     if mode == "explicit":
         om["extra_attrs"] = {"keytype": top_kt}
     main = os.path.join(dirpath, "main.xml")
